@@ -97,3 +97,20 @@ def register_pyval_shapes(reg):
     reg.shape('PyvalColorizer', {'explicit_precedence': 'Map[Ref[expr],Int]', 'linebreakok': 'Bool'})
     reg.shape('_OperatorDelimiter', {'discard': 'Bool', 'colorizer': 'Ref[PyvalColorizer]', 'state': 'Ref[_ColorizerState]',
                                      'marked': 'Ref[_MarkedColorizerState]'})
+
+
+def register_funcdef_shapes(reg):
+    reg.shape('AST', {})
+    reg.shape('expr', {}, bases=('AST',))
+    reg.shape('arg', {'arg': 'Str', 'annotation': 'RefN[expr]'}, bases=('AST',))
+    reg.shape('arguments', {'posonlyargs': 'Seq[Ref[arg]]', 'args': 'Seq[Ref[arg]]', 'defaults': 'Seq[Ref[expr]]',
+                            'vararg': 'RefN[arg]', 'kwonlyargs': 'Seq[Ref[arg]]', 'kw_defaults': 'Seq[RefN[expr]]',
+                            'kwarg': 'RefN[arg]'}, bases=('AST',))
+    reg.shape('FunctionDefNode', {'args': 'Ref[arguments]', 'returns': 'RefN[expr]'}, bases=('AST',))
+    reg.shape('_ValueFormatter', {})
+    reg.shape('_AnnotationValueFormatter', {}, bases=('_ValueFormatter',))
+    reg.shape('ModuleVistor', {'builder': 'Ref[ASTBuilder]'})
+    reg.shape('FunctionOverload', {'primary': 'Ref[Function]', 'signature': 'Obj[Sig]', 'decorators': 'Obj[DecoList]'})
+    reg.shapes['Function'].fields.update({'signature': 'Opt[Obj[Sig]]', 'overloads': 'Seq[Ref[FunctionOverload]]',
+                                          'annotations': 'Map[Str,RefN[expr]]'})
+    reg.shapes['FunctionDefNode'].fields.update({'decorator_list': 'Obj[DecoList]'})
